@@ -59,6 +59,7 @@ type c17Scenario struct {
 	Share    string     `json:"shared"`
 	Cfg      CfgDesc    `json:"config"`
 	Bias     string     `json:"scheduler_bias"`
+	Cold     bool       `json:"cold_package_state,omitempty"`
 	Types    []string   `json:"value_types"`
 	Plans    [][]string `json:"thread_plans"`
 	Schedule []string   `json:"schedule,omitempty"`
@@ -126,7 +127,17 @@ func runC17(e *Env) Outcome {
 	cfg := cfgd.Build()
 	bias := t.Intn("bias", len(biasNames))
 	shareObject := t.Chance("same-object", 1, 4)
-	sc := &c17Scenario{Threads: nthreads, Share: []string{"package-level state only", "one iterator.Session", "one builder.Session", "iterator.Session and builder.Session"}[share], Cfg: cfgd, Bias: biasNames[bias]}
+	// Cold package-level state: in these runs NOTHING of the library runs before
+	// the threads start (no documents prepared with a marshaler, no generated
+	// event stream), so the first touch of every lazily filled package-level
+	// table or cache happens inside the concurrent phase - provided the worker
+	// process is fresh, which is why workers are restarted at short intervals.
+	// Such runs consist of marshal operations only.
+	cold := t.Chance("cold-package-state", 1, 3)
+	if cold {
+		e.Count("runs_with_cold_package_state", 1)
+	}
+	sc := &c17Scenario{Threads: nthreads, Cold: cold, Share: []string{"package-level state only", "one iterator.Session", "one builder.Session", "iterator.Session and builder.Session"}[share], Cfg: cfgd, Bias: biasNames[bias]}
 
 	// value specs: the types several threads will need for the first time
 	nspecs := 1 + t.Intn("nspecs", 2)
@@ -147,6 +158,9 @@ func runC17(e *Env) Outcome {
 		// invalid input - but not megabytes of it: a cyclic value fails only
 		// at the depth limit, and every read is a scheduler step)
 		for f := range sp.docs {
+			if cold {
+				break
+			}
 			var err error
 			if f == 0 {
 				sp.docs[f], err = ce.MarshalToCBEDocument(sp.build().V, cfg)
@@ -164,7 +178,7 @@ func runC17(e *Env) Outcome {
 	// an event stream for decode/validate operations
 	o := gen.DrawOpts(t)
 	streamDocs := [2]*gen.Doc{}
-	for f := gen.CBE; f <= gen.CTE; f++ {
+	for f := gen.CBE; f <= gen.CTE && !cold; f++ {
 		d, rej := gen.DrawDoc(t, f, o, configurationDefault)
 		e.Count("generator_rejects", rej)
 		streamDocs[f] = d
@@ -178,7 +192,7 @@ func runC17(e *Env) Outcome {
 		for j := 0; j < nops; j++ {
 			op := c17Op{Format: gen.Format(t.Intn("op-format", 2)), Spec: t.Intn("op-spec", nspecs)}
 			switch k := t.Intn("op-kind", 8); {
-			case k <= 3:
+			case k <= 3 || cold:
 				op.Kind = "marshal"
 				op.Shared = share == 1 || share == 3
 			case k <= 5:
